@@ -25,11 +25,13 @@ def configs(tier):
     hi = 3 if q else 4
     for m in range(1, hi + 1):
         for n in range(1, hi + 1):
-            for Q in ((1, 2) if q else (1, 2, 3)):
-                if m * n * Q * Q > (36 if q else 64):
+            for Q in ((1, 2, '3/2') if q else (1, 2, 3, '3/2', '5/4')):
+                from fractions import Fraction as _F
+                import math as _m
+                if _m.ceil(m * _F(Q)) * _m.ceil(n * _F(Q)) > (36 if q else 64):
                     continue
                 for d in ('fwd', 'inv'):
-                    out.append({'name': 'fft-%s-%dx%d-Q%d' % (d, m, n, Q), 'kind': 'fft', 'dir': d, 'in': [m, n], 'Q': Q})
+                    out.append({'name': 'fft-%s-%dx%d-Q%s' % (d, m, n, Q), 'kind': 'fft', 'dir': d, 'in': [m, n], 'Q': str(Q)})
     shapes = [(2, 2, 2, 2), (2, 2, 3, 3), (3, 3, 2, 2), (2, 3, 3, 2), (3, 2, 2, 3), (2, 3, 2, 3), (3, 3, 3, 3), (1, 2, 2, 1)]
     if not q:
         shapes += [(4, 4, 3, 3), (3, 4, 4, 3), (4, 2, 2, 4), (4, 3, 3, 4), (2, 4, 3, 3)]
@@ -104,8 +106,11 @@ def run(cfg, H):
         return
     m, n = cfg['in']
     if kind == 'fft':
-        Q = cfg['Q']
-        M, N = m * Q, n * Q
+        from fractions import Fraction as _F
+        import math as _m
+        Qf = _F(cfg['Q'])
+        Q = H.frac(Qf.numerator, Qf.denominator) if Qf.denominator != 1 else int(Qf)
+        M, N = _m.ceil(m * Qf), _m.ceil(n * Qf)     # pad2d pads to ceil(n*Q)
         holder = {}
         if cfg['dir'] == 'fwd':
             def fn(f):
